@@ -1131,6 +1131,16 @@ def main2():
         report["kernels"][sp["fn"] + "(flow skeleton)"] = dict(info, file=sp["file"])
     except Unsupported as e:
         report["errors"].append(f"agent/conncheck.c:priv_conn_check_tick_agent_locked: {e}")
+    try:
+        import extract_flow
+        sp = extract_flow.SPEC_RELAY
+        fpath = os.path.join(REPO, sp["file"])
+        d = ast_of(fpath, sp["fn"])
+        txt, info = extract_flow.translate_relay(sp, d, open(fpath, "rb").read(), consts, Unsupported, REPO)
+        open(os.path.join(GEN, "RelayReply.lean"), "w").write(txt)
+        report["kernels"][sp["fn"] + "(flow skeleton)"] = dict(info, file=sp["file"])
+    except Unsupported as e:
+        report["errors"].append(f"agent/conncheck.c:priv_map_reply_to_relay_request: {e}")
     out.append("end Nice.Gen\n")
     open(os.path.join(GEN, "Kernels.lean"), "w").write("\n".join(out))
     with open(os.path.join(GEN, "Tables.lean"), "w") as f:
